@@ -64,4 +64,6 @@ MANIFEST = {'note': 'Label: partial. Trusted: Lean 4.33 kernel (axioms propext, 
          'ratSqrt_close (0 <= r, r^2 <= q < (r + 2^-100)^2, residual), ratSqrt_real, arccos_a_posteriori '
          '(|A - arccos x| <= 2t + pi*sqrt(eta/2)), ratAsin_close_partial (2^-42 given asinCert), haversine_h_close '
          '(2^-87, h in [0,1]), haversine_distance_engine_close_partial (|engine - real formula| <= R*2^-40 for '
-         '|lat| <= 90, |dlon| <= 1000, given havCert) and its mean-Earth instance (6 micrometres).'}
+         '|lat| <= 90, |dlon| <= 1000, given havCert), its mean-Earth instance (6 micrometres), and '
+         'haversine_distance_engine_close_interior_partial (R*2^-84/delta when h and the arcsine stay delta away '
+         'from the ends: neither nearly coincident nor nearly antipodal).'}
